@@ -62,8 +62,34 @@ func buildHarness(sp *spec, scratch string, race bool) (string, error) {
 		return "", err
 	}
 	for _, f := range hfiles {
-		if strings.HasSuffix(f.Name(), "_test.go") {
-			overlay[filepath.Join(repoDir, sp.Pkg, "zz_verif_"+f.Name())] = filepath.Join(hdir, f.Name())
+		if !strings.HasSuffix(f.Name(), "_test.go") {
+			continue
+		}
+		src := filepath.Join(hdir, f.Name())
+		dst := filepath.Join(repoDir, sp.Pkg, "zz_verif_"+f.Name())
+		overlay[dst] = src
+		// harness files marked "//verif:instrument" are passed through the rewriter too (their channel operations and
+		// selects become scheduling points); "sync" is left alone in them
+		if sp.Instrument && !race {
+			b, err := os.ReadFile(src)
+			if err != nil {
+				return "", err
+			}
+			if strings.Contains(string(b), "//verif:instrument") {
+				out, changed, err := instr.Rewrite(dst, b, instr.Config{RuntimeImport: modPath + "/internal/zzverif/vsched"})
+				if err != nil {
+					return "", fmt.Errorf("instrument harness %s: %w", src, err)
+				}
+				if changed {
+					idir := filepath.Join(scratch, "instr-harness")
+					os.MkdirAll(idir, 0o755)
+					p := filepath.Join(idir, f.Name())
+					if err := os.WriteFile(p, out, 0o644); err != nil {
+						return "", err
+					}
+					overlay[dst] = p
+				}
+			}
 		}
 	}
 	// 3. instrumented copies of the package sources (schedule checks only, never for the race pass)
